@@ -79,6 +79,14 @@ def collide():
         D("optLen", "let optLen (o:Opt_int) =\n  match o with\n  | Full s -> s\n  | Empty -> \"\"", deps=["Opt_int"], locals=["o", "s"]),
         D("someInt", "let someInt (n:int) =\n  Some n", deps=["Opt"], locals=["n"]),
         D("pairOpt", "let pairOpt (n:int) =\n  (someInt n, mkPair \"k\")", deps=["someInt", "mkPair"], locals=["n"]),
+        # two instances of one generic record whose type argument names joined by _ coincide (node_id + cost / node + id_cost): defect 33
+        D("node_id", "type node_id = {I1: int}", decls="^node_id$", istype=True, tva=0),
+        D("cost", "type cost = {I2: int}", decls="^cost$", istype=True, tva=0),
+        D("node", "type node = {I3: string}", decls="^node$", istype=True, tva=0),
+        D("id_cost", "type id_cost = {I4: string}", decls="^id_cost$", istype=True, tva=0),
+        D("Edge", "type Edge<A, B> = {From: A; W: B}", decls="^Edge$", istype=True, tva=0),
+        D("w1", "let w1 (e: Edge<node_id, cost>) =\n  e.W.I2", deps=["Edge", "node_id", "cost"], locals=["e"]),
+        D("w2", "let w2 (e: Edge<node, id_cost>) =\n  e.W.I4", deps=["Edge", "node", "id_cost"], locals=["e"]),
     ]}
 
 
